@@ -21,6 +21,8 @@ type corpusHistory struct {
 	Origin  map[string]string `json:"origin"`
 	Renames [][2]string       `json:"renames"`
 	RenOnto []bool            `json:"renames_onto_deleted"`
+	CopyCfg bool              `json:"git_copy_detection"`
+	Copies  [][2]string       `json:"copies"`
 	Tainted map[string]bool   `json:"tainted"`
 }
 
@@ -55,7 +57,7 @@ func loadCorpusHistories(prop string) []*history {
 		if json.Unmarshal(b, &c) != nil || c.Fork == nil {
 			continue
 		}
-		hi := &history{Fork: c.Fork, Origin: c.Origin, RenEdits: c.Renames, RenOnto: c.RenOnto, Tainted: c.Tainted, Strata: []string{"corpus:" + c.Name}}
+		hi := &history{Fork: c.Fork, Origin: c.Origin, RenEdits: c.Renames, RenOnto: c.RenOnto, CopyConfig: c.CopyCfg, Copies: c.Copies, Tainted: c.Tainted, Strata: []string{"corpus:" + c.Name}}
 		if hi.Tainted == nil {
 			hi.Tainted = map[string]bool{}
 		}
